@@ -992,6 +992,8 @@ class list_t(object):
         
     def clear(self):
         self.get_model().clear()
+        # Object lists keep the user's objects in a backing array
+        self.backing_arr.clear()
 
     def __contains__(self, lhs):
         if get_expr_mode():
